@@ -174,7 +174,7 @@ theorem opNewEntity_rel_transfer_ok (hro : ReadOnly run S rec) (run0 : ProbeRunn
 /-- `Add` after the `Alive` check of the untyped paths (verbatim) -/
 def addBody (run : ProbeRunner) (p : Path) (e : Ent) (ids : List Comp) (vals : List (Comp × Val))
     (rels : List RelID) : W Unit := do
-  preCheck p ids rels
+  preCheck (p.addCheck ids) ids rels
   let (old, new) ← addCore e ids rels
   if p != .unsafe_ then writeVals e vals
   fireAddIfHas run Ev.onAddComponents e old new
@@ -196,20 +196,20 @@ theorem opAdd_dead (run : ProbeRunner) (p : Path) (e : Ent) (ids : List Comp)
 
 theorem addBody_pre_panic (run : ProbeRunner) (p : Path) (e : Ent) (ids : List Comp)
     (vals : List (Comp × Val)) (rels : List RelID) (w : World) {k : PanicKind}
-    (hpre : preCheck p ids rels w = .panic k w) :
+    (hpre : preCheck (p.addCheck ids) ids rels w = .panic k w) :
     addBody run p e ids vals rels w = .panic k w := by
   simp only [addBody, hpre, bind, M.bind]
 
 theorem addBody_core_panic (run : ProbeRunner) (p : Path) (e : Ent) (ids : List Comp)
     (vals : List (Comp × Val)) (rels : List RelID) (w : World)
-    (hpre : preCheck p ids rels w = .ok () w) {k : PanicKind} {s : World}
+    (hpre : preCheck (p.addCheck ids) ids rels w = .ok () w) {k : PanicKind} {s : World}
     (hcore : addCore e ids rels w = .panic k s) :
     addBody run p e ids vals rels w = .panic k s := by
   simp only [addBody, hpre, bind, M.bind, hcore]
 
 theorem addBody_of_core (run : ProbeRunner) (p : Path) (e : Ent) (ids : List Comp)
     (vals : List (Comp × Val)) (rels : List RelID) (w : World)
-    (hpre : preCheck p ids rels w = .ok () w) {old new : Mask} {w1 : World}
+    (hpre : preCheck (p.addCheck ids) ids rels w = .ok () w) {old new : Mask} {w1 : World}
     (hcore : addCore e ids rels w = .ok (old, new) w1)
     (hno : ∀ (evt : Nat), w1.obs.hasObservers evt = false) :
     addBody run p e ids vals rels w = .ok () (writeValsW w1 e vals) := by
@@ -220,7 +220,7 @@ theorem addBody_of_core (run : ProbeRunner) (p : Path) (e : Ent) (ids : List Com
 
 theorem addBody_obs_eq (hro : ReadOnly run S rec) (p : Path) (e : Ent) (ids : List Comp)
     (vals : List (Comp × Val)) (rels : List RelID) (w : World) (hs : ScriptsIn w.obs S)
-    (hok : ObsOK w.obs) (hpre : preCheck p ids rels w = .ok () w)
+    (hok : ObsOK w.obs) (hpre : preCheck (p.addCheck ids) ids rels w = .ok () w)
     {old new : Mask} {w1 : World} (hcore : addCore e ids rels w = .ok (old, new) w1) :
     addBody run p e ids vals rels w = .ok () ((writeValsW w1 e vals).addLog
       (addRounds rec w.obs e Ev.onAddComponents (.add old new) rels (.add old new)
@@ -259,7 +259,7 @@ theorem opAdd_rel_transfer_panic (run run0 : ProbeRunner) (p : Path) (e : Ent) (
   by_cases hb : p = .typed ∨ w.alive e = true
   · rw [opAdd_eq_body run0 p e ids vals rels w.noObs hb] at h0
     rw [opAdd_eq_body run p e ids vals rels w hb]
-    rcases preCheck_of_noObs p ids rels w with ⟨h1, h2⟩ | ⟨k', h1, h2⟩
+    rcases preCheck_of_noObs (p.addCheck ids) ids rels w with ⟨h1, h2⟩ | ⟨k', h1, h2⟩
     · have hcw := addCore_of_noObs e ids rels w
       cases hc : addCore e ids rels w.noObs with
       | panic k' s' =>
@@ -299,7 +299,7 @@ theorem opAdd_rel_transfer_ok (hro : ReadOnly run S rec) (run0 : ProbeRunner) (p
   by_cases hb : p = .typed ∨ w.alive e = true
   · rw [opAdd_eq_body run0 p e ids vals rels w.noObs hb] at h0
     rw [opAdd_eq_body run p e ids vals rels w hb]
-    rcases preCheck_of_noObs p ids rels w with ⟨h1, h2⟩ | ⟨k', h1, h2⟩
+    rcases preCheck_of_noObs (p.addCheck ids) ids rels w with ⟨h1, h2⟩ | ⟨k', h1, h2⟩
     · have hcw := addCore_of_noObs e ids rels w
       cases hc : addCore e ids rels w.noObs with
       | panic k' s' =>
